@@ -196,7 +196,8 @@ func (e *explorer) explore(parent *frame, prefix []int, fps []uint64, cost, dept
 	}
 	// An execution is counted and checked at the level equal to its cost (lower
 	// levels were handled by earlier iterations).
-	if cost == e.level {
+	// sharded search: the root execution itself is counted by shard 0 only
+	if cost == e.level && !(depth == 0 && e.opt.NShards > 1 && e.opt.Shard != 0) {
 		e.res.Execs++
 		e.res.Steps += int64(r.Steps)
 		e.res.ChoicePoints += int64(len(r.Trace))
@@ -230,7 +231,14 @@ func (e *explorer) explore(parent *frame, prefix []int, fps []uint64, cost, dept
 			if f.done[i][alt] {
 				continue
 			}
-			if !e.opt.NoReduction && !f.wanted(i, alt) {
+			if depth == 0 && e.opt.NShards > 1 {
+				// sharded search: the alternatives of the root execution are not reduced (a race that asks
+				// for one of them may only be seen in another shard's subtree) and are dealt out by position;
+				// inside each of them the reduction applies as usual
+				if (i*131+alt)%e.opt.NShards != e.opt.Shard {
+					continue
+				}
+			} else if !e.opt.NoReduction && !f.wanted(i, alt) {
 				continue
 			}
 			c := cost + cp.AltCost(alt)
